@@ -151,13 +151,14 @@ def account_history(chk, agg, seed, cls, flavour, res, tr):
         chk.bump("histories_with_midstream_shutdown")
     cviol = [tuple(x) for x in res.get("viol", [])]
     stuck = int(res.get("stuck", 0))
-    if nbmulti and (overflow or stuck or cviol):
-        if overflow or not tr:
-            chk.violation("C23|process-queue-overflow|non-blocking-get|multi-consumer",
-                          "a registration in the full process queue was overwritten (%s); client oracle: %s; stuck phase %d: %s"
-                          % ("; ".join(m for k, m in tviol[:2]), "; ".join("%s: %s" % x for x in cviol[:2]), stuck,
-                             res.get("diag", "")[:300]), case)
-            return
+    if nbmulti and (tviol or stuck or cviol):
+        # every failure mode of this class (overwritten registration, consumer never woken, NULL fifo popped from the
+        # process queue) is the same defect; other defects are the business of the std/pool classes
+        chk.violation("C23|process-queue-overflow|non-blocking-get|multi-consumer",
+                      "non-blocking gets on a %s-consumer resource: trace oracle: %s; client oracle: %s; stuck phase %d: %s"
+                      % (res.get("ncons"), "; ".join("%s: %s" % (k, m) for k, m in tviol[:2]) or "-",
+                         "; ".join("%s: %s" % x for x in cviol[:2]) or "-", stuck, res.get("diag", "")[:300]), case)
+        return
     for key, msg in cviol:
         if key == "client|shutdown-stuck":
             continue  # decided below by reproduction
